@@ -9,6 +9,7 @@ the model's predicted trace, the property's allowed set and native Go; (b) the r
 generated files vs the Lean decision table, build errors through the real compiler; (c) order of `$packages[..] =`
 assignments, of the `$init` calls inside every `$init`, self-replacement, blocking checks and the boot tail of the
 emitted JavaScript vs the model."""
+import itertools
 import json
 import os
 import re
@@ -22,7 +23,7 @@ THEOREMS = [
     "deps_topological", "deps_nodup", "deps_mem_iff", "deps_runtime_first", "deps_main_last",
     "machine_eq_direct", "init_once_after_imports", "boot_sync_needs_hsync", "init_suspension_invisible", "no_overtaking",
     "var_order", "spec_var_order_respects",
-    "file_order", "file_order_any_sort", "init_calls_order", "import_order",
+    "file_order", "file_order_any_sort", "sort_perm", "sort_sorted", "sort_input_order_independent", "init_calls_order", "import_order",
     "read_link_iff", "linkname_parse", "splitExt_spec", "linkname_split", "linkname_split_plain", "linkname_dotted_package",
     "ismethod_value", "ismethod_pointer", "ismethod_func",
     "linkname_resolves", "linkset_add_no_conflict", "program_linkset_no_conflict", "linkset_conflict_first_wins",
@@ -188,9 +189,25 @@ class Pkg:
         self.links = []            # linkname references declared here
 
 
-def gen_program(rng, mod, size=None, edges=None):
+def many_file_names(rng, n):
+    """n distinct file names whose byte order differs from their creation order: mixed prefixes, upper case, digits and
+    underscores (no trailing _GOOS/_GOARCH/_test element), returned in shuffled creation order."""
+    shapes = ["f%02d.go", "F%02d.go", "a_%d.go", "Zed%d.go", "x%dy.go", "m%d_k.go", "B_%d_1.go", "q%d.go", "%d.go", "_%d.go"]
+    names, seen = [], set()
+    while len(names) < n:
+        nm = rng.choice(shapes[:-1]) % rng.randrange(0, 60)
+        if nm.lower() not in seen:          # the go tool rejects case-insensitive collisions
+            seen.add(nm.lower())
+            names.append(nm)
+    rng.shuffle(names)
+    return names
+
+
+def gen_program(rng, mod, size=None, edges=None, many=None, mainfiles=None):
     """Draw a term of the model's language (import DAG, files, declarations) and render it to Go source.
-    With `edges` (pairs (i, j), i imports j, j < i, index size-1 = main) the import graph is exactly that one."""
+    With `edges` (pairs (i, j), i imports j, j < i, index size-1 = main) the import graph is exactly that one.
+    With `many` one package gets that many files (each with at least one init function); `mainfiles` fixes the number
+    of files of the main package."""
     n = size or rng.choice([2, 3, 3, 4, 5, 6, 7])
     dirs = rng.sample(DIRS, n - 1)
     pkgs = [Pkg(i, mod + "/" + d, d.split("/")[-1].split(".")[0]) for i, d in enumerate(dirs)]
@@ -212,12 +229,17 @@ def gen_program(rng, mod, size=None, edges=None):
                 mainp.imports.append(p)
         rng.shuffle(mainp.imports)
     ident = 0
+    many_pkg = rng.choice(pkgs) if many else None
     # variables, functions, init functions
     for p in pkgs:
         nfiles = rng.choice([1, 2, 2, 3, 3])
+        if p is mainp and mainfiles:
+            nfiles = mainfiles
         names = ["main.go"] + rng.sample(FILES, nfiles - 1) if p is mainp and rng.random() < 0.5 else rng.sample(FILES, nfiles)
+        if p is many_pkg:
+            names = many_file_names(rng, many)
         p.files = [{"name": f, "decls": [], "src": [], "imports": set()} for f in names]
-        nv = rng.randrange(1, 7)
+        nv = rng.randrange(1, 7) if p is not many_pkg else rng.randrange(many // 2, many + 1)
         hidden = ["v%d" % i for i in range(nv)]
         rng.shuffle(hidden)
         p.vars = hidden
@@ -262,8 +284,8 @@ def gen_program(rng, mod, size=None, edges=None):
         for fs in funcs:
             rng.choice(p.files)["src"].append(fs)
         for f in p.files:
-            for k in range(rng.choice([0, 1, 1, 2, 3])):
-                tracer = rng.choice(["tr", "trb", "trg"])
+            for k in range(rng.choice([0, 1, 1, 2, 3]) if p is not many_pkg else rng.choice([1, 1, 2])):
+                tracer = rng.choice(["tr", "trb", "trg"]) if p is not many_pkg else rng.choice(["tr", "tr", "tr", "trb"])
                 stm = ""
                 if zeros and rng.random() < 0.4:
                     stm = "\t%s += %d\n" % (rng.choice(zeros), rng.randrange(1, 9))
@@ -280,7 +302,7 @@ def gen_program(rng, mod, size=None, edges=None):
             p.vars = hidden + ["X"]
             rng.choice(p.files)["src"].append("func F() int { return %s }\n" % " + ".join(["2"] + hidden[:3] + zeros))
     # linkname edges: (reference package, implementation package, kind)
-    nlinks = rng.choice([0, 1, 2, 3, 4]) if edges is None else 0
+    nlinks = rng.choice([0, 1, 2, 3, 4]) if edges is None and len(pkgs) >= 2 else 0
     lid = 0
     for _ in range(nlinks):
         a, b = rng.sample(pkgs, 2)
@@ -419,16 +441,30 @@ def all_dags(n):
         yield [pr for b, pr in enumerate(pairs) if mask >> b & 1]
 
 
-def program_tie(chk, tier, scratch, nprog, targeted=False, dags=None):
+def program_tie(chk, tier, scratch, nprog, targeted=False, dags=None, special=None):
+    """special: list of generator settings {size, many, mainfiles, perms}: `many` = one package with that many files;
+    `perms` = the (single-package) program is additionally built from explicit file lists in EVERY permutation
+    (`gopherjs build a.go c.go b.go`), each of which must give the trace of the directory build."""
     gopath = os.path.join(scratch, "gopath")
     os.makedirs(gopath, exist_ok=True)
     progsl, jobs = [], []
-    for k in range(nprog if dags is None else len(dags)):
-        mod = "gvq%dx%d%s" % (chk.seed, k, "t" if targeted else ("e" if dags is not None else ""))
-        g = gen_program(chk.rng, mod) if dags is None else gen_program(chk.rng, mod, size=dags[k][0], edges=dags[k][1])
+    count = len(special) if special is not None else (nprog if dags is None else len(dags))
+    for k in range(count):
+        mod = "gvq%dx%d%s" % (chk.seed, k, "s" if special is not None else ("t" if targeted else ("e" if dags is not None else "")))
+        job_extra = {}
+        if special is not None:
+            sp = special[k]
+            g = gen_program(chk.rng, mod, size=sp.get("size"), many=sp.get("many"), mainfiles=sp.get("mainfiles"))
+            if sp.get("perms"):
+                names = [f["name"] for f in g["pkgs"][-1].files]
+                job_extra["file_args"] = [list(x) for x in itertools.permutations(names)]
+        else:
+            g = gen_program(chk.rng, mod) if dags is None else gen_program(chk.rng, mod, size=dags[k][0], edges=dags[k][1])
         progsl.append(g)
         variants = ["plain"] + (["minify"] if k % 5 == 0 else [])
-        jobs.append({"id": "p%d" % k, "mod": mod, "files": g["files"], "variants": variants, "native": True, "timeout": 300})
+        job = {"id": "p%d" % k, "mod": mod, "files": g["files"], "variants": variants, "native": True, "timeout": 300}
+        job.update(job_extra)
+        jobs.append(job)
     res = run_prog_jobs(jobs, gopath)
     ops_model, ops_allowed = [], []
     for g, j, r in zip(progsl, jobs, res):
@@ -455,12 +491,17 @@ def program_tie(chk, tier, scratch, nprog, targeted=False, dags=None):
         nfiles = sum(len(p.files) for p in g["pkgs"])
         nblock = sum(s.count("trb(") + s.count("trg(") for s in g["files"].values())
         nlinks_total = sum(len(p.links) for p in g["pkgs"])
-        for v in j["variants"]:
+        maxfiles = max(len(p.files) for p in g["pkgs"])
+        for v in j["variants"] + ["args%d" % i for i in range(len(j.get("file_args", [])))]:
+            tv = "file-args" if v.startswith("args") else v
             run = r["runs"][v]
             obs = progs.observe_js(run)
             jt, jv, jl, jjunk = tokens(obs[0])
-            op = json.dumps({"id": j["id"], "variant": v, "desc": g["desc"], "files": g["files"]})
-            chk.add_case("program:" + v, g["desc"], kindkey="program:%s:pkgs=%d" % (v, len(g["pkgs"])),
+            op = json.dumps({"id": j["id"], "variant": v, "desc": g["desc"], "files": g["files"],
+                             "file_args": j["file_args"][int(v[4:])] if v.startswith("args") else None})
+            if maxfiles >= 13:
+                chk.count("program:many-files:%s" % ("13-25" if maxfiles <= 25 else "26-40"))
+            chk.add_case("program:" + tv, g["desc"] + v, kindkey="program:%s:pkgs=%d" % ("file-args" if v.startswith("args") else v, len(g["pkgs"])),
                          sample={"tie": "program", "op": g["desc"][:400], "impl": ",".join(jt)[:400]})
             chk.count("program:files", nfiles)
             chk.count("program:blocking-items", nblock)
@@ -473,13 +514,13 @@ def program_tie(chk, tier, scratch, nprog, targeted=False, dags=None):
             pred, okay = C.run_driver("C10", ops)
             impl_line = ",".join(jt) or "-"
             if obs[1] != "exit0" or jjunk:
-                chk.add_mismatch("program:" + v, op, impl=json.dumps([obs[1], jjunk[:3], run.get("stderr", "")[:300]]), spec="exit0 with trace lines only",
+                chk.add_mismatch("program:" + tv, op, impl=json.dumps([obs[1], jjunk[:3], run.get("stderr", "")[:300]]), spec="exit0 with trace lines only",
                                  signature=None, model=pred[:300])
                 continue
             if okay != "ok":
-                chk.add_mismatch("program:" + v, op, impl=impl_line, spec="a trace in the allowed set; rule broken: " + okay, signature="C10 order " + okay, model=pred)
+                chk.add_mismatch("program:" + tv, op, impl=impl_line, spec="a trace in the allowed set; rule broken: " + okay, signature="C10 order " + okay, model=pred)
             elif impl_line != pred:
-                chk.add_tie_break("program-trace:" + v, op, impl_line, pred)
+                chk.add_tie_break("program-trace:" + tv, op, impl_line, pred)
             # parts fixed by Go: per file init order, values, linkname results
             for p in g["pkgs"]:
                 for f in p.files:
@@ -487,15 +528,15 @@ def program_tie(chk, tier, scratch, nprog, targeted=False, dags=None):
                     a = [t for t in jt if t.startswith(pre)]
                     b = [t for t in ntoks if t.startswith(pre)]
                     if a != b:
-                        chk.add_mismatch("program:" + v, op, impl=",".join(a), spec=",".join(b), signature="C10 init order within file")
+                        chk.add_mismatch("program:" + tv, op, impl=",".join(a), spec=",".join(b), signature="C10 init order within file")
             if jv != nvals:
                 diff = sorted(k for k in set(jv) | set(nvals) if jv.get(k) != nvals.get(k))[:5]
-                chk.add_mismatch("program:" + v, op, impl=json.dumps({k: jv.get(k) for k in diff}), spec=json.dumps({k: nvals.get(k) for k in diff}),
+                chk.add_mismatch("program:" + tv, op, impl=json.dumps({k: jv.get(k) for k in diff}), spec=json.dumps({k: nvals.get(k) for k in diff}),
                                  signature="C10 initial values")
             for p in g["pkgs"]:
                 for l in p.links:
                     if jl.get(l["key"]) != nlinks.get(l["key"]):
-                        chk.add_mismatch("program:" + v, op, impl="%s -> %s" % (l["comment"], jl.get(l["key"])), spec=str(nlinks.get(l["key"])),
+                        chk.add_mismatch("program:" + tv, op, impl="%s -> %s" % (l["comment"], jl.get(l["key"])), spec=str(nlinks.get(l["key"])),
                                          signature="C10 linkname %s %s wrong-implementation" % (l["kind"], l["dir"]))
             if v == "plain":
                 structure_tie(chk, g, r, op)
@@ -718,6 +759,41 @@ def conflict_tie(chk, scratch):
         chk.add_tie_break("linkset-conflict", json.dumps({"op": "ln conflict", "files": files}), impl, model)
 
 
+def sort_tie(chk, tier):
+    """The REAL `sources.Sources.Sort` (one parsed file per name, handed over in the given order) vs the model's `sortFiles`
+    (proved: permutation, sorted by name, independent of the input order). Lists of 0..60 distinct names; input orders:
+    ascending (a directory listing), descending, single swaps, rotations, random shuffles."""
+    rng = chk.rng
+    lines = []
+    for _ in range(6000 if tier == "thorough" else 700):
+        n = rng.choice([0, 1, 2, 3, 3, 4, 5, 8, 12, 13, 14, 20, 33, 60, rng.randrange(0, 61)])
+        names = sorted(many_file_names(rng, n)) if n else []
+        how = rng.randrange(6)
+        if how == 1:
+            names.reverse()
+        elif how == 2 and n >= 2:
+            i, k = rng.sample(range(n), 2)
+            names[i], names[k] = names[k], names[i]
+        elif how == 3 and n >= 2:
+            r = rng.randrange(n)
+            names = names[r:] + names[:r]
+        elif how >= 4:
+            rng.shuffle(names)
+        lines.append(",".join(names) or "-")
+    for perm in itertools.permutations(["a.go", "b.go", "c.go"]):
+        lines.append(",".join(perm))
+    for perm in itertools.permutations(["a.go", "B.go", "a_1.go", "z9.go"]):
+        lines.append(",".join(perm))
+    impl = C.run_gvh_lines(["sort"], lines, name="gvh_c10")
+    ops = ["link files " + l for l in lines]
+    model = [m or "-" for m in C.run_driver("C10", ops)]
+
+    def kind(o, a):
+        n = 0 if o.endswith(" -") else o.count(",") + 1
+        return "sort:files=%s" % ("0-2" if n <= 2 else "3-12" if n <= 12 else "13-60")
+    chk.compare("Sources.Sort", ops, impl, model, kind=kind, signature=lambda o, a, c: "C10 Sources.Sort order-not-by-name")
+
+
 def runtime_closure_facts(chk, scratch):
     """Regenerated fact behind the hypothesis `hsync` of init_once_after_imports: compile a program with the real compiler,
     take the import lists of the linked archives, let the MODEL compute the dependency closure of `runtime`, and record for
@@ -850,6 +926,7 @@ def run(tier, seed):
             raise RuntimeError("generated linkname file does not parse: %s" % (bad[0],))
         chk.compare("ParseGoLinknames", ops, impl, C.run_driver("C10", ops), kind=ln_kind)
         sym_tie(chk, tier)
+        sort_tie(chk, tier)
         graph_selftest(chk, tier)
         C.log("[C10] directive ties done %.0fs" % (time.time() - chk.t0))
         build_error_tie(chk, scratch)
@@ -860,6 +937,13 @@ def run(tier, seed):
         # (a)+(c) programs
         nprog = 60 if tier == "thorough" else 10
         total = program_tie(chk, tier, scratch, nprog)
+        # packages with MANY files (sort.Slice leaves insertion sort at 13 elements) and explicit file lists in every permutation
+        nmany = 8 if tier == "thorough" else 2
+        special = [{"size": chk.rng.choice([1, 2, 3]), "many": chk.rng.choice([13, 14, 15, 17, 20, 26, 33, 40])} for _ in range(nmany)]
+        special += [{"size": 1, "mainfiles": 3, "perms": True}]
+        if tier == "thorough":
+            special += [{"size": 1, "mainfiles": 3, "perms": True}, {"size": 1, "mainfiles": 4, "perms": True}, {"size": 1, "mainfiles": 4, "perms": True}]
+        total += program_tie(chk, tier, scratch, 0, special=special)
         if chk.tie_breaks or [m for m in chk.mismatches if not chk.known_match(m.get("signature"))]:
             # a tie broke: search harder for an input on which the property itself fails
             total += program_tie(chk, tier, scratch, 60, targeted=True)
